@@ -125,11 +125,13 @@ func cmdCheck(args []string) int {
 	prop := fs.String("p", "", "property id")
 	tier := fs.String("tier", "quick", "quick|thorough")
 	par := fs.Int("par", 16, "parallel solver processes")
+	noev := fs.Bool("noevidence", false, "do not write evidence or replay files (selftest)")
+	wb := fs.Bool("write-baseline", false, "record the discharged obligation classes as the baseline of this property")
 	fs.Parse(args)
 	if t := os.Getenv("VERIF_TIER"); t != "" && *tier == "" {
 		*tier = t
 	}
 	seed := 0
 	fmt.Sscanf(os.Getenv("VERIF_SEED"), "%d", &seed)
-	return vc.RunCheck(vc.CheckOpts{Repo: *repo, Verif: *verif, Prop: *prop, Tier: *tier, Seed: seed, Par: *par})
+	return vc.RunCheck(vc.CheckOpts{Repo: *repo, Verif: *verif, Prop: *prop, Tier: *tier, Seed: seed, Par: *par, WriteBaseline: *wb, NoEvidence: *noev})
 }
